@@ -34,7 +34,7 @@ struct Model {
 };
 
 struct Counters {
-  long steps = 0, snapshots = 0, evals = 0, repeats = 0, fatal_ok = 0, twin = 0, checkpoints = 0, listed = 0, display = 0;
+  long steps = 0, snapshots = 0, evals = 0, repeats = 0, fatal_ok = 0, twin = 0, checkpoints = 0, listed = 0, display = 0, radiation_refs = 0;
 };
 extern Counters CNT;
 extern std::vector<std::string> HISTORY;     // operations executed so far in this shard (replay / evidence)
